@@ -200,7 +200,7 @@ def run(ctx):
             truth = convcheck.make_truth(rng, n_m, n_ap, n_w, names=gen.model_names(rng, n_m))
             d = ctx.newdir('mo')
             order = list(rng.permutation(n_m))
-            lsub = int(rng.choice([0, 0, 1, 2]))          # SEDs in seds/<first letters>/ (documented layout for large packages)
+            lsub = [0, 1, 0, 2][ipk % 4]          # SEDs in seds/<first letters>/ (documented layout for large packages)
             if lsub:
                 ctx.regime('package:sed-subdirectories')
             pkg.build_v1(d, truth, table_order=order, desc=rng.random(n_m) < 0.5, gz=rng.random(n_m) < 0.3, fmt='D', length_subdir=lsub)
